@@ -439,17 +439,24 @@ func renderProgram(c Node) string {
 		return st
 	}
 	var parts []string
-	for _, d := range nlist(c, "defs") {
+	renderDef := func(d Node) string {
 		s := "set " + nstr(d, "name") + " to pattern " + renderSeq(nlist(d, "es"))
 		if pred := nlist(d, "pred"); len(pred) > 0 {
 			s += " begin " + renderStmts(pred, false) + " end"
 		}
-		parts = append(parts, s)
+		return s
+	}
+	for _, d := range nlist(c, "defs") {
+		parts = append(parts, renderDef(d))
 	}
 	for _, t := range nlist(c, "trans") {
 		parts = append(parts, "set "+nstr(t, "name")+" to transform "+renderStmts(nlist(t, "stmts"), false)+" end")
 	}
 	for _, cmd := range nlist(c, "cmds") {
+		// definitions placed between the commands (a later definition of a name replaces the earlier one from there on)
+		for _, d := range nlist(cmd, "defs_before") {
+			parts = append(parts, renderDef(d))
+		}
 		parts = append(parts, renderCommand(cmd))
 	}
 	return strings.Join(parts, "\n")
@@ -457,6 +464,9 @@ func renderProgram(c Node) string {
 
 func renderCommand(cmd Node) string {
 	kind := nstr(cmd, "kind")
+	if kind == "setmatches" {
+		return "set " + nstr(cmd, "name") + " to matches " + renderCommand(nnode(cmd, "cmd"))
+	}
 	s := kind + " " + renderAmount(nnode(cmd, "amt")) + " " + renderSeq(nlist(cmd, "body"))
 	if kind == "replace" {
 		var ws []string
